@@ -587,6 +587,36 @@ func genC13(c *Ctx) {
 			c.cueDo(cueCase{S: root, P: p, CP: cp, Dom: !unspec, Q: q, Txt: txt}, cls, expect, unspec)
 		}
 	}
+	// hand-written schemas: definitions (which are not fields: `#name` is not an addressable key, wherever it is declared), and root
+	// fields whose names look like identifiers of another kind (32 hex digits, UUIDs in capitals) - a key is its spelling
+	{
+		txt := `#Address: {street: string, zip: int}
+input: {
+	name: string
+	addr: #Address
+	order: {#line: {qty: int}, first: #line, total: number}
+	_dependencies: []
+}
+s2: {
+	r: {#r: {v: int}, w: #r}
+	_dependencies: ["input"]
+}
+"0cc175b9c0f1b6a831c399e269772661": {v: int, _dependencies: []}
+"52A015EF-1F7B-4C3A-9E2D-7A5B1C2D3E4F": {v: string, _dependencies: []}
+"11111111-2222-3333-4444-555555555555": {v: bool, _dependencies: []}
+`
+		for _, qe := range [][3]string{
+			{"$.input.addr.street", "", "ACC String Single"}, {"$.input.addr.zip", "", "ACC Number Single"}, {"$.input.order.first.qty", "", "ACC Number Single"}, {"$.s2.r.w.v", "", "ACC Number Single"},
+			{"$.#Address", "", "REJ"}, {"$.#Address.street", "", "REJ"}, {"$.input.#Address", "", "REJ"}, {"$.input.order.#line", "", "REJ"}, {"$.input.order.#line.qty", "", "REJ"},
+			{"$.s2.r.#r.v", "", "REJ"}, {"$.input.order.#line.qty", "s2", "REJ"}, {"$.s2.r.#r", "", "REJ"}, {"$.input.addr.#Address", "", "REJ"},
+			{"$.0cc175b9c0f1b6a831c399e269772661.v", "", "ACC Number Single"}, {"$.52A015EF-1F7B-4C3A-9E2D-7A5B1C2D3E4F.v", "", "ACC String Single"},
+			{"$.11111111-2222-3333-4444-555555555555.v", "", "ACC Boolean Single"}, {"$.11111111222233334444555555555555.v", "", "REJ"}, {"$.urn:uuid:11111111-2222-3333-4444-555555555555.v", "", "REJ"},
+			{"$.0CC175B9C0F1B6A831C399E269772661.v", "", ""}, {"$.0cc175b9-c0f1-b6a8-31c3-99e269772661.v", "", "REJ"}, {"$.52a015ef-1f7b-4c3a-9e2d-7a5b1c2d3e4f.v", "", ""},
+			{"$.input.name.Equal($.0cc175b9c0f1b6a831c399e269772661.v)", "", ""}, {"$.0cc175b9c0f1b6a831c399e269772661.v", "s2", "REJ"}, {"$.input.0cc175b9c0f1b6a831c399e269772661", "", "REJ"},
+		} {
+			c.cueDo(cueCase{S: &CTy{T: "struct"}, P: []string{"text"}, CP: qe[1], Dom: true, Pos: "text", Q: qe[0], Txt: txt}, "named/definitions-and-odd-names", qe[2], qe[2] == "")
+		}
+	}
 }
 
 // ---------- C15 ----------
@@ -606,6 +636,9 @@ func c15Schema(steps []string, edges map[string][]string, extraDeclared []string
 		f := &CField{N: name, M: "reg", Ty: st}
 		if strings.Contains(name, "-") {
 			f.Q = 1
+		}
+		if strings.HasPrefix(name, "_") { // a hidden root field (not one of the base paths): a step like the others as far as availability goes
+			f.H = 1
 		}
 		if form, ok := c15Forms[name]; ok { // optional / required / quoted declarations of a step
 			f.M, f.Q = form.M, form.Q
@@ -649,6 +682,8 @@ func c15Queries(target string) [][2]string {
 		{"group", "{OR,$.input.ok,{AND,$." + target + ".ok}}"},
 		{"mark", "$." + target + "?.name"},
 		{"mark-arg", "$.input.name.Equal($." + target + "?.name?)"},
+		{"after-parse", "$.input.name.ParseJSON().token.Equal($." + target + ".name)"},
+		{"after-parse-group", "{$.input.ok,$.input.name.ParseYAML().a.b.Equal($." + target + ".name)}"},
 	}
 }
 
@@ -716,7 +751,7 @@ func (c *Ctx) c15Check(root *CTy, txt string, all []string, cp, target, cls stri
 }
 
 func genC15(c *Ctx) {
-	c.Rule = "dependency graphs over k steps (every subset of the k*k edges, self-loops and cycles included): all graphs over 3 steps in the quick tier (2^9) and all over 4 steps in the thorough tier (2^16, one current step per graph, chosen by a hash of the edge set: 65536 (graph, current step) pairs x 7 targets instead of 4 x as many; the quick tier samples 800 graphs with every current step), each x every current step (3 steps) x every root field as target (steps, a merely declared step, input, variables), the target read at the head of the path; for a sample also inside a filter, a function argument and a nested group, and with the root field written with its `?` mark (`$.s1?.name`, also inside an argument); the 3-step graphs again with the root fields declared in three other orders (steps before input, reversed, rotated); plus random graphs of up to 12 steps (chains, diamonds, fan-in, dangling names). Oracle: accepted iff the target is a base path or in the transitive closure of the current step's _dependencies, and is not the current step itself (unless input); the fields offered at the root are exactly the non-blocked ones; a dependency naming an undeclared step yields an error result; every call returns within the watchdog. distinct = distinct (class, verdict)"
+	c.Rule = "dependency graphs over k steps (every subset of the k*k edges, self-loops and cycles included): all graphs over 3 steps in the quick tier (2^9) and all over 4 steps in the thorough tier (2^16, one current step per graph, chosen by a hash of the edge set: 65536 (graph, current step) pairs x 7 targets instead of 4 x as many; the quick tier samples 800 graphs with every current step), each x every current step (3 steps) x every root field as target (steps, a merely declared step, a hidden root field `_s1` next to `s1`, input, variables), the target read at the head of the path; for a sample also inside a filter, a function argument, a nested group, an argument of a call on a value parsed inside the query (`….ParseJSON().token.Equal($.s1.name)`), and with the root field written with its `?` mark (`$.s1?.name`, also inside an argument); the 3-step graphs again with the root fields declared in three other orders (steps before input, reversed, rotated); plus random graphs of up to 12 steps (chains, diamonds, fan-in, dangling names). Oracle: accepted iff the target is a base path or in the transitive closure of the current step's _dependencies, and is not the current step itself (unless input); the fields offered at the root are exactly the non-blocked ones; a dependency naming an undeclared step yields an error result; every call returns within the watchdog. distinct = distinct (class, verdict)"
 	run := func(k int, mask uint64, cls string, positions bool) {
 		var steps []string
 		for i := 0; i < k; i++ {
@@ -730,8 +765,12 @@ func genC15(c *Ctx) {
 				}
 			}
 		}
-		root, txt := c15Schema(steps, edges, []string{"lonely"})
-		all := append(append([]string{"input", "variables"}, steps...), "lonely")
+		extra := []string{"lonely"}
+		if k == 3 {
+			extra = append(extra, "_s1") // a hidden root field named like a step: not that step, and nobody's dependency
+		}
+		root, txt := c15Schema(steps, edges, extra)
+		all := append(append([]string{"input", "variables"}, steps...), extra...)
 		for ci, cp := range steps {
 			// the complete 4-step block takes one current step per graph (the relabellings of a graph are in the block too and get
 			// other current steps); the 3-step block and the sampled 4-step graphs take all
